@@ -105,6 +105,9 @@ var (
 //   - envs: the environment variables of the base configuration.
 //     These are used to set the environment variables for the DAG.
 func (b *builder) build(def *definition, envs []string) (*DAG, error) {
+	if err := assertNoNullEntries(def); err != nil {
+		return nil, err
+	}
 	b.def = def
 	b.envs = envs
 	b.dag = &DAG{
